@@ -40,6 +40,7 @@ type VC struct {
 	fresh_      []*freshObj
 	leakAt      map[ssa.Instruction][]*freshObj
 	hinted      map[string]bool
+	letTypes    map[string]*Val // a binding of each ghost let (for its type), once seen
 	guardOf     map[string]string // guarded field heap name -> mutex field heap name
 	guards      map[string][]string
 }
@@ -130,6 +131,7 @@ type Frame struct {
 	heldOut  map[*ssa.BasicBlock]map[string]bool
 	heldIn   map[string]bool
 	ghosts   map[string]*Val
+	ghostOut map[*ssa.BasicBlock]map[string]*Val
 	prefix   string
 }
 
@@ -429,7 +431,7 @@ func (vc *VC) addObl(o *Obligation) *Obligation {
 func (vc *VC) newFrame(fn *ssa.Function, c *Contract, depth int) *Frame {
 	vc.nframe++
 	fr := &Frame{vc: vc, fn: fn, c: c, id: vc.nframe, vals: map[ssa.Value]*Val{}, reach: map[*ssa.BasicBlock]Term{}, edges: map[[2]int]Term{},
-		heapOut: map[*ssa.BasicBlock]*Heap{}, params: map[string]*Val{}, depth: depth, loops: map[*ssa.BasicBlock]*loopInfo{}, backEdge: map[[2]int]bool{}, held: map[string]bool{}, heldOut: map[*ssa.BasicBlock]map[string]bool{}, heldIn: map[string]bool{}}
+		heapOut: map[*ssa.BasicBlock]*Heap{}, params: map[string]*Val{}, depth: depth, loops: map[*ssa.BasicBlock]*loopInfo{}, backEdge: map[[2]int]bool{}, held: map[string]bool{}, heldOut: map[*ssa.BasicBlock]map[string]bool{}, heldIn: map[string]bool{}, ghostOut: map[*ssa.BasicBlock]map[string]*Val{}}
 	fr.prefix = fmt.Sprintf("f%d", fr.id)
 	return fr
 }
@@ -518,7 +520,25 @@ func (fr *Frame) analyzeLoops() {
 	for h := range fr.loops {
 		headers = append(headers, h)
 	}
-	sort.Slice(headers, func(i, j int) bool { return loopPos(headers[i]) < loopPos(headers[j]) })
+	// source order: by the earliest position of any instruction in the loop; an enclosing loop precedes the loops it contains
+	lpos := map[*ssa.BasicBlock]int{}
+	for _, h := range headers {
+		best := 1<<30 + h.Index
+		for b := range fr.loops[h].blocks {
+			for _, in := range b.Instrs {
+				if p := in.Pos(); p != token.NoPos && int(p) < best {
+					best = int(p)
+				}
+			}
+		}
+		lpos[h] = best
+	}
+	sort.Slice(headers, func(i, j int) bool {
+		if lpos[headers[i]] != lpos[headers[j]] {
+			return lpos[headers[i]] < lpos[headers[j]]
+		}
+		return len(fr.loops[headers[i]].blocks) > len(fr.loops[headers[j]].blocks)
+	})
 	for _, h := range headers {
 		fr.loops[h].ordinal = ord
 		ord++
@@ -612,6 +632,8 @@ func (fr *Frame) run(entryReach Term, entryHeap *Heap) {
 			if fr.held == nil {
 				fr.held = map[string]bool{}
 			}
+			// ghost lets are path-sensitive: merge the predecessors' bindings like phis
+			fr.ghosts = fr.mergeGhosts(fpreds, conds)
 			if len(conds) == 0 {
 				reach = "false"
 				heapIn = entryHeap.Derive()
@@ -644,6 +666,11 @@ func (fr *Frame) run(entryReach Term, entryHeap *Heap) {
 		}
 		fr.heapOut[b] = fr.cur
 		fr.heldOut[b] = copySet(fr.held)
+		go_ := map[string]*Val{}
+		for k, v := range fr.ghosts {
+			go_[k] = v
+		}
+		fr.ghostOut[b] = go_
 	}
 	_ = fn
 }
@@ -768,6 +795,13 @@ func (fr *Frame) loopWrites(li *loopInfo) (map[string]bool, bool) {
 				fr.vc.regHeap("ML", "(Array Int Int)")
 			case *ssa.Go:
 				// effects of a started goroutine are not sequenced with this function (A4)
+			case *ssa.Next:
+				if !x.IsString {
+					if mt, ok := x.Iter.(*ssa.Range).X.Type().Underlying().(*types.Map); ok {
+						ks := fr.vc.sortOf(mt.Key())
+						mod[fr.vc.regHeap("GV|"+ks, "(Array Int (Array "+ks+" Bool))")] = true
+					}
+				}
 			case ssa.CallInstruction:
 				names, a := fr.callWrites(x)
 				if a {
@@ -924,4 +958,55 @@ func funcTag(name string) int {
 	id := len(funcTags) + 1
 	funcTags[name] = id
 	return id
+}
+
+func (fr *Frame) mergeGhosts(preds []*ssa.BasicBlock, conds []Term) map[string]*Val {
+	out := map[string]*Val{}
+	names := map[string]bool{}
+	for _, p := range preds {
+		for k := range fr.ghostOut[p] {
+			names[k] = true
+		}
+	}
+	vc := fr.vc
+	for name := range names {
+		var vals []*Val
+		same := true
+		for _, p := range preds {
+			v := fr.ghostOut[p][name]
+			vals = append(vals, v)
+			if v == nil || vals[0] == nil || v.T != vals[0].T {
+				same = false
+			}
+		}
+		if same {
+			out[name] = vals[0]
+			continue
+		}
+		// bound on some paths only, or to different values: a path-dependent value
+		var typ *Val
+		for _, v := range vals {
+			if v != nil {
+				typ = v
+				break
+			}
+		}
+		sortS := vc.sortOfVal(typ)
+		var t Term
+		for i := len(vals) - 1; i >= 0; i-- {
+			vt := ""
+			if vals[i] != nil {
+				vt = vals[i].T
+			} else {
+				vt = vc.S.FreshConst("unbound."+name, sortS)
+			}
+			if t == "" {
+				t = vt
+			} else {
+				t = ite(conds[i], vt, t)
+			}
+		}
+		out[name] = &Val{T: vc.S.Define("ghost."+name, sortS, t), Typ: typ.Typ}
+	}
+	return out
 }
